@@ -147,7 +147,29 @@ def rule_r1(ctx) -> List[R.Inst]:
                 continue
             if want is not None and tlc != want:
                 problems.append(f"cast to {tlc.split('.')[-1]} but {tk[1].split('.')[-1]}.{tgt.attr} holds {want.split('.')[-1]}")
-            m = C.dict_call_kwargs(mp)
+            def _mapping(e, depth=0):
+                """the mapping as {target field: source-field expression}: a dict display / dict(..) call, a local bound once to one,
+                or dict(<such a local>, more=..) — a mapping shared by several casts and extended for one of them"""
+                if depth > 3:
+                    return None
+                if isinstance(e, ast.Name):
+                    ds = [n.value for n in ast.walk(cv.fn.node) if isinstance(n, ast.Assign) and len(n.targets) == 1 and
+                          isinstance(n.targets[0], ast.Name) and n.targets[0].id == e.id]
+                    stores = sum(1 for n in ast.walk(cv.fn.node) if isinstance(n, ast.Name) and n.id == e.id and isinstance(n.ctx, ast.Store))
+                    mutated = any(isinstance(n, ast.Subscript) and isinstance(n.ctx, (ast.Store, ast.Del)) and isinstance(n.value, ast.Name) and
+                                  n.value.id == e.id for n in ast.walk(cv.fn.node)) or any(
+                        isinstance(n, ast.Call) and isinstance(n.func, ast.Attribute) and isinstance(n.func.value, ast.Name) and n.func.value.id == e.id and
+                        n.func.attr in ("update", "pop", "setdefault", "clear", "popitem") for n in ast.walk(cv.fn.node))
+                    return _mapping(ds[0], depth + 1) if len(ds) == 1 and stores == 1 and not mutated else None
+                if isinstance(e, ast.Call) and isinstance(e.func, ast.Name) and e.func.id == "dict" and len(e.args) == 1 and all(k.arg for k in e.keywords):
+                    base = _mapping(e.args[0], depth + 1)
+                    if base is None:
+                        return None
+                    out_ = dict(base)
+                    out_.update({k.arg: k.value for k in e.keywords})
+                    return out_
+                return C.dict_call_kwargs(e)
+            m = _mapping(mp)
             if m is None:
                 insts.append(R.undec("C08.R1", key, cv.file, call.lineno, "mapping is not a dict literal"))
                 continue
